@@ -338,9 +338,25 @@ func (p *distPool) Store() *MemStore { return p.store }
 // Raw exposes the allocator (C12).
 func (p *distPool) Raw() *allocator.DistributedAllocator { return p.a }
 
-type distLeasePool struct{ distPool }
+// distLeasePool deliberately does not offer Reload: restart of a lease-mode node from its store
+// (stale records of lapsed leases, epoch reset) is judged by C12, which models the store.
+type distLeasePool struct {
+	cfg   allocator.DistributedConfig
+	a     *allocator.DistributedAllocator
+	store *MemStore
+	in    distPool
+}
 
-func (p *distLeasePool) AdvanceEpoch() { p.a.AdvanceEpoch() }
+func (p *distLeasePool) AdvanceEpoch()                                { p.a.AdvanceEpoch() }
+func (p *distLeasePool) Alloc(sub string) (netip.Prefix, error)       { return p.in.Alloc(sub) }
+func (p *distLeasePool) Release(sub string) error                     { return p.in.Release(sub) }
+func (p *distLeasePool) Renew(sub string) error                       { return p.in.Renew(sub) }
+func (p *distLeasePool) Lookup(sub string) (netip.Prefix, bool, bool) { return p.in.Lookup(sub) }
+func (p *distLeasePool) Reverse(v netip.Prefix) (string, bool, bool)  { return p.in.Reverse(v) }
+func (p *distLeasePool) List() (map[string]netip.Prefix, bool)        { return nil, false }
+func (p *distLeasePool) Stats() (int, int, bool)                      { return p.in.Stats() }
+func (p *distLeasePool) FailNext(n int)                               { p.in.FailNext(n) }
+func (p *distLeasePool) StoreHas(sub string) (netip.Prefix, bool)     { return p.in.StoreHas(sub) }
 
 // Reload = restart from the backing store (session mode only participates in C01/C05 histories;
 // lease-mode reload is judged in C12 where the epoch of the restarted node is modelled).
@@ -396,7 +412,7 @@ func Distributed(cidr string, unit int, lease bool, grace int) *Spec {
 			}
 			dp := distPool{cfg: cfg, a: a, store: st}
 			if lease {
-				return &distLeasePool{dp}, nil
+				return &distLeasePool{cfg: cfg, a: a, store: st, in: dp}, nil
 			}
 			return &dp, nil
 		}}
@@ -575,9 +591,20 @@ type dhcpPool struct {
 	p    *dhcp.Pool
 	mu   sync.Mutex
 	mine map[string]netip.Prefix // what this adapter was told (needed because Release is by IP)
+	// per-subscriber locks: dhcp.Pool releases by IP value whoever holds it (the server's lease table
+	// guards that); the adapter therefore keeps its own table and the pool in step per subscriber,
+	// while operations of different subscribers still run concurrently.
+	subMu sync.Map
+}
+
+func (p *dhcpPool) lockSub(sub string) func() {
+	m, _ := p.subMu.LoadOrStore(sub, &sync.Mutex{})
+	m.(*sync.Mutex).Lock()
+	return m.(*sync.Mutex).Unlock
 }
 
 func (p *dhcpPool) Alloc(sub string) (netip.Prefix, error) {
+	defer p.lockSub(sub)()
 	ip, err := p.p.Allocate(macOf(sub))
 	if err != nil {
 		return netip.Prefix{}, exh(err)
@@ -589,6 +616,7 @@ func (p *dhcpPool) Alloc(sub string) (netip.Prefix, error) {
 	return v, nil
 }
 func (p *dhcpPool) Release(sub string) error {
+	defer p.lockSub(sub)()
 	p.mu.Lock()
 	v, ok := p.mine[sub]
 	delete(p.mine, sub)
@@ -596,6 +624,19 @@ func (p *dhcpPool) Release(sub string) error {
 	if ok {
 		p.p.Release(net.IP(v.Addr().AsSlice()))
 	}
+	return nil
+}
+
+// ReleaseValue is dhcp.Pool's real API: release by address, whoever holds it (or nobody).
+func (p *dhcpPool) ReleaseValue(v netip.Prefix) error {
+	p.mu.Lock()
+	for s, mv := range p.mine {
+		if mv == v {
+			delete(p.mine, s)
+		}
+	}
+	p.mu.Unlock()
+	p.p.Release(net.IP(v.Addr().AsSlice()))
 	return nil
 }
 func (p *dhcpPool) Lookup(sub string) (netip.Prefix, bool, bool) { return netip.Prefix{}, false, false }
@@ -818,13 +859,8 @@ func (p *nexusPool) ensure(sub string) {
 	}
 	// subscribers are provisioned through the store; the cache is fed by the (asynchronous) watcher,
 	// so provisioning waits until the client sees it.
+	// (the harness store delivers watch callbacks synchronously, so the cache is up to date on return)
 	_ = p.c.SaveSubscriber(bg, &nexus.Subscriber{ID: sub, IPv4Pool: "p1", State: "active"})
-	for i := 0; i < 2000; i++ {
-		if _, ok := p.c.GetSubscriber(sub); ok {
-			return
-		}
-		yield()
-	}
 }
 func (p *nexusPool) Alloc(sub string) (netip.Prefix, error) {
 	p.ensure(sub)
@@ -869,7 +905,7 @@ func Nexus(cidr string) *Spec {
 	}
 	return &Spec{Impl: "nexus.Client.AllocateIPForSubscriber", Geom: cidr, Range: r, UnitBits: 32, Usable: usable, Excluded: excl, Concurrent: false,
 		New: func() (Pool, error) {
-			st := nexus.NewMemoryStore()
+			st := newSyncNexusStore()
 			c := nexus.NewClient(nexus.DefaultClientConfig(), st, zap.NewNop())
 			if err := c.Pools.Put(bg, "p1", &nexus.IPPool{ID: "p1", CIDR: cidr, Type: "residential"}); err != nil {
 				return nil, err
@@ -887,3 +923,78 @@ func Close(p Pool) {
 		np.c.Stop()
 	}
 }
+
+// syncNexusStore is an in-memory nexus.Store whose watch callbacks run synchronously in
+// Put/Delete, so that the client's cache is a deterministic function of the history
+// (nexus.MemoryStore delivers them on fresh goroutines in no particular order).
+type syncNexusStore struct {
+	mu       sync.Mutex
+	data     map[string][]byte
+	watchers []struct {
+		prefix string
+		cb     nexus.WatchCallback
+	}
+}
+
+func newSyncNexusStore() *syncNexusStore { return &syncNexusStore{data: map[string][]byte{}} }
+
+func (m *syncNexusStore) Get(ctx context.Context, key string) ([]byte, error) {
+	m.mu.Lock()
+	defer m.mu.Unlock()
+	if v, ok := m.data[key]; ok {
+		return append([]byte(nil), v...), nil
+	}
+	return nil, nexus.ErrNotFound
+}
+func (m *syncNexusStore) notify(key string, value []byte, deleted bool) {
+	m.mu.Lock()
+	ws := append([]struct {
+		prefix string
+		cb     nexus.WatchCallback
+	}{}, m.watchers...)
+	m.mu.Unlock()
+	for _, w := range ws {
+		if strings.HasPrefix(key, w.prefix) {
+			w.cb(key, value, deleted)
+		}
+	}
+}
+func (m *syncNexusStore) Put(ctx context.Context, key string, value []byte) error {
+	m.mu.Lock()
+	m.data[key] = append([]byte(nil), value...)
+	m.mu.Unlock()
+	m.notify(key, value, false)
+	return nil
+}
+func (m *syncNexusStore) Delete(ctx context.Context, key string) error {
+	m.mu.Lock()
+	delete(m.data, key)
+	m.mu.Unlock()
+	m.notify(key, nil, true)
+	return nil
+}
+func (m *syncNexusStore) Query(ctx context.Context, prefix string) ([]nexus.KeyValue, error) {
+	m.mu.Lock()
+	defer m.mu.Unlock()
+	var ks []string
+	for k := range m.data {
+		if strings.HasPrefix(k, prefix) {
+			ks = append(ks, k)
+		}
+	}
+	sort.Strings(ks)
+	var out []nexus.KeyValue
+	for _, k := range ks {
+		out = append(out, nexus.KeyValue{Key: k, Value: append([]byte(nil), m.data[k]...)})
+	}
+	return out, nil
+}
+func (m *syncNexusStore) Watch(prefix string, cb nexus.WatchCallback) {
+	m.mu.Lock()
+	m.watchers = append(m.watchers, struct {
+		prefix string
+		cb     nexus.WatchCallback
+	}{prefix, cb})
+	m.mu.Unlock()
+}
+func (m *syncNexusStore) Close() error { return nil }
